@@ -53,7 +53,16 @@ class Spec:
         st.h = H.Solo(self.client)
         st.dead = False
         st.wire_hi = 0          # highest id we have put on the wire as initiator
-        return [("handshaken", st)]
+        out = [("handshaken", st)]
+        # a start state two steps on (two streams of the client open), so that the depth bound reaches histories like:
+        # promise a high id, reset a stream, a promise on the reset stream is refused, promise a lower id
+        import pickle
+        st2 = pickle.loads(pickle.dumps(st))
+        for lab in (("l:req:1", "l:req:3") if self.client else ("rx:H:1", "rx:H:3")):
+            step = self.apply(st2, lab)
+            assert not step.violations and not st2.dead, lab
+        out.append(("two-streams-open", st2))
+        return out
 
     def fingerprint(self, st):
         return fingerprint(st.h.conn, st.h.m.key(), st.dead, st.wire_hi)
@@ -80,6 +89,13 @@ class Spec:
             for s in live:
                 if m.streams[s].local_init and not m.streams[s].pushed:
                     acts.append("finish:%d" % s)
+            # PUSH_PROMISE frames that were in flight when the application reset their parent stream
+            for s, x in sorted(m.streams.items()):
+                if s % 2 == 1 and x.state == SM.CLOSED and x.closed_by == "send_rst":
+                    for p in PROMISED[:4]:
+                        if p not in live:
+                            acts.append("rx:PP:%d:%d" % (s, p))
+                    break
         else:
             for i in SERVER_PEER_IDS:
                 if i not in live:
@@ -185,9 +201,8 @@ class Spec:
                 if o.raw:
                     bad("refused-open-emitted", "%s(%d) raised but emitted %s" % (parts[1], sid, o.brief()))
                 out += "-refused"
-                # a refused open may still have burnt the id inside the library (C01's business): stop this path
-                st.dead = True
-                return Step(out, viols, prune=not viols)
+                # the path goes on: a refused open must not have used up an id (get_next_available_stream_id is
+                # observed below, later opens are judged against the unchanged model)
         elif parts[:2] == ["rx", "H"] or parts[:2] == ["rx", "PP"]:
             if parts[1] == "H":
                 sid = int(parts[2])
@@ -216,6 +231,15 @@ class Spec:
             # an id of the receiver's own parity can never be opened by the peer: PROTOCOL_ERROR is always a
             # correct answer there, besides the closed-stream rule when such a stream exists
             alt = ("CE", wire.PROTOCOL_ERROR) if not peer_parity else exp
+            if parts[1] == "PP":
+                ps = m.get(parent)
+                if ps is not None and ps.state == SM.CLOSED and ps.closed_by == "send_rst":
+                    # the parent was reset by the application: the promise raced the reset and is refused (C20, C22);
+                    # for an id that could not be promised anyway the connection error stays a correct answer
+                    if peer_parity and status == "unused_high":
+                        exp = alt = ("SE", wire.REFUSED_STREAM)
+                    elif got == ("SE", wire.REFUSED_STREAM):
+                        exp = got
             if got != exp and got != alt:
                 bad("peer-open-wrong-outcome",
                     "peer %s with id %d (%s, closed_by=%s): expected %s, got %s [%s]" % (
